@@ -118,14 +118,19 @@ Definition die_y (v : var) : vdecl := mkV v (Some (ymin die)) (Some (ymax die)).
 Definition unit_v (v : var) : vdecl := mkV v (Some 0) (Some 1).
 Definition nonneg_v (v : var) : vdecl := mkV v (Some 0) None.
 
+(* An entry of `modules` together with its row of model.a: [snd p c] is model.a[name][c].  The generators below
+   are written over such pairs so that the row of a module is computed once; the model instantiates them with
+   [ent_of m = (m, a_ent m)]  (Cases/CmpC10Sys.v evaluates the same generators with tabulated rows,
+   Glb/SystemFacts.v: gen_system_of_ext shows that this makes no difference). *)
+Definition ent := (module * (nat -> expr))%type.
+Definition ent_of (m : module) : ent := (m, a_ent m).
+
 Definition xyd_decls (m : module) : list vdecl :=
   if mfixed m then []
   else [die_x (VX (mname m)); die_y (VY (mname m)); nonneg_v (VD (mname m))].
-Definition a_decls (m : module) : list vdecl :=
-  flat_map (fun ic => match model_a eps t cells m (fst ic) with
-                      | Some _ => []
-                      | None => [unit_v (VA (mname m) (fst ic))]
-                      end) icells.
+(* the entries that are g.Var(lb=0, ub=1) *)
+Definition a_decls_of (p : ent) : list vdecl :=
+  flat_map (fun ic => match snd p (fst ic) with EV v => [unit_v v] | _ => [] end) icells.
 Definition hard_decls (m : module) : list vdecl :=
   [die_x (VX (mname m)); die_y (VY (mname m))] ++ map (fun ic => unit_v (VA (mname m) (fst ic))) icells.
 Definition is_hyper (e : list string) : bool := negb (Nat.eqb (List.length e) 2).
@@ -133,66 +138,68 @@ Definition hypers : list (nat * list string) := indexed_from 0 (filter is_hyper 
 Definition edge_decls : list vdecl :=
   flat_map (fun je => [nonneg_v (VEX (fst je)); nonneg_v (VEY (fst je))]) hypers.
 
-Definition all_decls : list vdecl :=
-  flat_map xyd_decls pms ++ flat_map a_decls pms ++ flat_map hard_decls (hards mods) ++ edge_decls.
+Definition all_decls_of (ents : list ent) : list vdecl :=
+  flat_map xyd_decls pms ++ flat_map a_decls_of ents ++ flat_map hard_decls (hards mods) ++ edge_decls.
 
 (* ---- equations ---- *)
 (* cells cannot be over-occupied *)
-Definition cap_con (c : nat) : con := mkCon (esum (map (fun m => a_ent m c) pms)) LE (EC 1).
+Definition cap_con_of (ents : list ent) (c : nat) : con := mkCon (esum (map (fun p => snd p c) ents)) LE (EC 1).
 
 (* modules must have sufficient area; centroid of modules *)
-Definition area_con (m : module) : con :=
-  mkCon (esum (map (fun ic => EMul (EC (area (crect (snd ic)))) (a_ent m (fst ic))) icells)) GE (EC (pm_area m)).
-Definition centx_con (m : module) : con :=
-  mkCon (EMul (EC (1 / pm_area m))
-              (esum (map (fun ic => EMul (EC (area (crect (snd ic)) * cx (crect (snd ic)))) (a_ent m (fst ic))) icells)))
-        EQ (x_ent m).
-Definition centy_con (m : module) : con :=
-  mkCon (EMul (EC (1 / pm_area m))
-              (esum (map (fun ic => EMul (EC (area (crect (snd ic)) * cy (crect (snd ic)))) (a_ent m (fst ic))) icells)))
-        EQ (y_ent m).
+Definition area_con_of (p : ent) : con :=
+  mkCon (esum (map (fun ic => EMul (EC (area (crect (snd ic)))) (snd p (fst ic))) icells)) GE (EC (pm_area (fst p))).
+Definition centx_con_of (p : ent) : con :=
+  mkCon (EMul (EC (1 / pm_area (fst p)))
+              (esum (map (fun ic => EMul (EC (area (crect (snd ic)) * cx (crect (snd ic)))) (snd p (fst ic))) icells)))
+        EQ (x_ent (fst p)).
+Definition centy_con_of (p : ent) : con :=
+  mkCon (EMul (EC (1 / pm_area (fst p)))
+              (esum (map (fun ic => EMul (EC (area (crect (snd ic)) * cy (crect (snd ic)))) (snd p (fst ic))) icells)))
+        EQ (y_ent (fst p)).
 (* dispersion of soft modules *)
-Definition disp_con (m : module) : con :=
+Definition disp_con_of (p : ent) : con :=
+  let m := fst p in
   mkCon (EMul (EC (qc 6 1 / pow32 (pm_area m)))
-              (esum (map (fun ic => EMul (EMul (EC (area (crect (snd ic)))) (a_ent m (fst ic)))
+              (esum (map (fun ic => EMul (EMul (EC (area (crect (snd ic)))) (snd p (fst ic)))
                                          (EAdd (ESqr (ESub (x_ent m) (EC (cx (crect (snd ic))))))
                                                (ESqr (ESub (y_ent m) (EC (cy (crect (snd ic)))))))) icells)))
         EQ (EV (VD (mname m))).
-Definition module_cons (m : module) : list con :=
-  [area_con m; centx_con m; centy_con m] ++ (if mhard m then [] else [disp_con m]).
+Definition module_cons_of (p : ent) : list con :=
+  [area_con_of p; centx_con_of p; centy_con_of p] ++ (if mhard (fst p) then [] else [disp_con_of p]).
 
 (* movable hard modules *)
 Definition offset_con (flip : bool) (u v : expr) (d : Qc) : con :=
   if flip then mkCon (ESqr (ESub u v)) EQ (EC (d * d)) else mkCon (ESub u v) EQ (EC d).
-Definition link_con (m : module) (c : nat) : con :=
-  mkCon (EV (VA (mname m) c)) EQ (esum (map (fun fm => a_ent fm c) (fake_modules m))).
-Definition fake_disp_con (fm : module) (r : Rect) : con :=
-  let w := rw r in let h := rh r in
+Definition link_con_of (m : module) (fents : list ent) (c : nat) : con :=
+  mkCon (EV (VA (mname m) c)) EQ (esum (map (fun p => snd p c) fents)).
+Definition fake_disp_con_of (p : ent) (r : Rect) : con :=
+  let fm := fst p in let w := rw r in let h := rh r in
   mkCon (EMul (EC (qc 12 1 / (w * w * w + h * h * h)))
               (esum (map (fun ic =>
                  let dx := ESub (x_ent fm) (EC (cx (crect (snd ic)))) in
                  let dy := ESub (y_ent fm) (EC (cy (crect (snd ic)))) in
-                 EMul (EMul (EC (area (crect (snd ic)))) (a_ent fm (fst ic)))
+                 EMul (EMul (EC (area (crect (snd ic)))) (snd p (fst ic)))
                       (if Qcltb w h then EAdd (ESqr (EMul (EC (h / w)) dx)) (ESqr dy)
                        else EAdd (ESqr dx) (ESqr (EMul (EC (w / h)) dy)))) icells)))
         EQ (EV (VD (mname fm))).
 (* for r, rectangle: (for r' > r: the two offset equations); the dispersion of m_r *)
-Fixpoint rigid_cons (flip : bool) (fms : list (module * Rect)) : list con :=
+Fixpoint rigid_cons_of (flip : bool) (fms : list (ent * Rect)) : list con :=
   match fms with
   | [] => []
-  | (fm, r) :: rest =>
-      flat_map (fun p => [offset_con flip (x_ent fm) (x_ent (fst p)) (cx r - cx (snd p));
-                          offset_con flip (y_ent fm) (y_ent (fst p)) (cy r - cy (snd p))]) rest
-      ++ [fake_disp_con fm r] ++ rigid_cons flip rest
+  | (p, r) :: rest =>
+      flat_map (fun q => [offset_con flip (x_ent (fst p)) (x_ent (fst (fst q))) (cx r - cx (snd q));
+                          offset_con flip (y_ent (fst p)) (y_ent (fst (fst q))) (cy r - cy (snd q))]) rest
+      ++ [fake_disp_con_of p r] ++ rigid_cons_of flip rest
   end.
-Definition hard_cons (m : module) : list con :=
-  match combine (fake_modules m) (mrects m) with
+Definition hard_cons_of (mk : module -> ent) (m : module) : list con :=
+  let fents := map mk (fake_modules m) in
+  match combine fents (mrects m) with
   | [] => []
-  | (fm0, r0) :: _ =>
-      [offset_con (mflip m) (EV (VX (mname m))) (x_ent fm0) (fst (mcenter m) - cx r0);
-       offset_con (mflip m) (EV (VY (mname m))) (y_ent fm0) (snd (mcenter m) - cy r0)]
-      ++ map (fun ic => link_con m (fst ic)) icells
-      ++ rigid_cons (mflip m) (combine (fake_modules m) (mrects m))
+  | (p0, r0) :: _ =>
+      [offset_con (mflip m) (EV (VX (mname m))) (x_ent (fst p0)) (fst (mcenter m) - cx r0);
+       offset_con (mflip m) (EV (VY (mname m))) (y_ent (fst p0)) (snd (mcenter m) - cy r0)]
+      ++ map (fun ic => link_con_of m fents (fst ic)) icells
+      ++ rigid_cons_of (mflip m) (combine fents (mrects m))
   end.
 
 (* nets with other than two pins *)
@@ -201,9 +208,16 @@ Definition hyper_cons (je : nat * list string) : list con :=
   [mkCon (EMul (esum (map x_name (snd je))) (EC (inv_len (snd je)))) EQ (EV (VEX (fst je)));
    mkCon (EMul (esum (map y_name (snd je))) (EC (inv_len (snd je)))) EQ (EV (VEY (fst je)))].
 
-Definition all_cons : list con :=
-  map (fun ic => cap_con (fst ic)) icells ++ flat_map module_cons pms ++ flat_map hard_cons (hards mods)
-  ++ flat_map hyper_cons hypers.
+Definition all_cons_of (mk : module -> ent) (ents : list ent) : list con :=
+  map (fun ic => cap_con_of ents (fst ic)) icells ++ flat_map module_cons_of ents
+  ++ flat_map (hard_cons_of mk) (hards mods) ++ flat_map hyper_cons hypers.
+
+(* the model: every row is [a_ent m] *)
+Definition a_decls (m : module) : list vdecl := a_decls_of (ent_of m).
+Definition all_decls : list vdecl := all_decls_of (map ent_of pms).
+Definition cap_con (c : nat) : con := cap_con_of (map ent_of pms) c.
+Definition link_con (m : module) (c : nat) : con := link_con_of m (map ent_of (fake_modules m)) c.
+Definition all_cons : list con := all_cons_of ent_of (map ent_of pms).
 
 (* ---- what makes optimize_allocation raise before the solver is called ---- *)
 (* repaired code: assert f"{m}_{r}" is not the name of a module of the netlist *)
@@ -216,11 +230,13 @@ Definition zero_div : bool :=
              (hards mods)
   || existsb (fun e => is_empty e) (filter is_hyper edges).
 
-Definition gen_system : option system :=
-  if fake_clash || zero_div then None else Some (mkSys all_decls all_cons).
+Definition gen_system_of (mk : module -> ent) : option system :=
+  if fake_clash || zero_div then None
+  else let ents := map mk pms in Some (mkSys (all_decls_of ents) (all_cons_of mk ents)).
+Definition gen_system : option system := gen_system_of ent_of.
 
 (* ---- the values extract_solution reads through get_value: floats as they are, variables as solved ---- *)
-Definition sol_of (asg : var -> Qc) : Sol :=
+Definition sol_of_asg (asg : var -> Qc) : Sol :=
   mkSol (fun k c => match find_module k pms with
                     | Some m => match model_a eps t cells m c with Some v => v | None => asg (VA k c) end
                     | None => asg (VA k c)
@@ -251,7 +267,7 @@ Definition solver_of (n : nat) (ms : list module) (cells : list cell) : option S
   | None => None
   | Some _ => match raw n ms cells with
               | None => None
-              | Some asg => Some (sol_of eps t ms cells asg)
+              | Some asg => Some (sol_of_asg eps t ms cells asg)
               end
   end.
 
